@@ -67,6 +67,7 @@ func ids(n int) []uint16 {
 
 type out struct {
 	dup       *scen.Result // refused-duplicate: the second call of the same operation
+	dup2      *scen.Result // ... and the third
 	retry     map[uint16]*scen.Result
 	res       map[uint16]*scen.Result
 	sendCount map[uint16]int
@@ -191,17 +192,22 @@ func run(c *harness.C, k cfg, f fault, r world.Chooser) *out {
 			// a local precondition fails: while party 1's call is stuck (peer f.Peer vanished), the
 			// same operation is invoked again on party 1 (same topic / second key generation); it is
 			// refused - and neither call may block beyond its deadline because of that
+			// ... and once more one step later (an application that retries): refused as well
 			step := 0
-			fired := false
+			fired := 0
 			w.Extra = func() []world.Event {
 				step++
-				if !fired && step > f.K {
-					fired = true
-					return []world.Event{{Label: "duplicate call at 1", Do: func() {
+				if fired < 2 && step > f.K+fired {
+					fired++
+					name := "dup"
+					if fired == 2 {
+						name = "dup2"
+					}
+					return []world.Event{{Label: "duplicate call at 1 (" + name + ")", Do: func() {
 						if k.Op == "keygen" {
-							scen.StartKeyGen(w, w.Parties[1], rs, "dup", k.N, k.t(), deadline)
+							scen.StartKeyGen(w, w.Parties[1], rs, name, k.N, k.t(), deadline)
 						} else {
-							scen.StartSign(w, w.Parties[1], rs, "dup", []byte("digest-c11"), "topic-c11", deadline)
+							scen.StartSign(w, w.Parties[1], rs, name, []byte("digest-c11"), "topic-c11", deadline)
 						}
 					}}}
 				}
@@ -229,6 +235,7 @@ func run(c *harness.C, k cfg, f fault, r world.Chooser) *out {
 		}
 		w.Loop(r, w.Now()+horizon)
 		o.dup = rs.Get("dup")
+		o.dup2 = rs.Get("dup2")
 		for _, id := range members {
 			o.res[id] = rs.Get(fmt.Sprint(id))
 			if o.res[id] != nil && o.res[id].Returned {
@@ -313,6 +320,9 @@ func dupOracle(c *harness.C, k cfg, f fault, o *out) {
 	if o.dup == nil {
 		c.Note("c11-dup", "the duplicate call was never issued (session ended first)")
 		return
+	}
+	if o.dup2 != nil && !o.dup2.Returned {
+		c.Violation("returns-by-deadline", fmt.Sprintf("c11-second-duplicate-call-never-returns:%s/%s/%s", k.Stack, k.Mode, k.Op), fmt.Sprintf("%s %s: the third %s call on party 1 (issued right after a refused second one, while the first was waiting for a vanished peer) has not returned after its deadline", k, f, k.Op), replay{k, f})
 	}
 	if !o.dup.Returned {
 		c.Violation("returns-by-deadline", fmt.Sprintf("c11-duplicate-call-never-returns:%s/%s/%s", k.Stack, k.Mode, k.Op), fmt.Sprintf("%s %s: the second %s call on party 1 (issued while the first was waiting for a vanished peer) has not returned after its deadline", k, f, k.Op), replay{k, f})
